@@ -419,7 +419,13 @@ def extras(ctx):
         if back != q:
             ctx.violation(f"QName {q!r} without a prefix map: serialize -> {converter.serialize(q)!r} -> {back!r}", {"qname": q.text})
     fmts = [(datetime.date(2024, 2, 29), "%d/%m/%Y"), (datetime.datetime(1999, 12, 31, 23, 59, 59), "%Y-%m-%dT%H:%M:%S"),
-            (datetime.time(7, 5, 0), "%H:%M:%S"), (datetime.date(1987, 1, 1), "%Y-%m-%d")]
+            (datetime.time(7, 5, 0), "%H:%M:%S"), (datetime.date(1987, 1, 1), "%Y-%m-%d"),
+            # every directive a value of the type can carry: fractions of a second, 12-hour clock, offsets, day of the year
+            (datetime.time(12, 55, 7, 500000), "%H:%M:%S.%f"), (datetime.time(0, 0, 0, 1), "%H%M%S%f"), (datetime.time(23, 59, 59, 999999), "%I:%M:%S.%f %p"),
+            (datetime.time(7, 5), "%H.%M"), (datetime.datetime(2018, 6, 21, 15, 40, 3, 250000), "%Y-%m-%dT%H:%M:%S.%f"),
+            (datetime.datetime(2001, 1, 1, 0, 0, 0, 7), "%d.%m.%Y %H:%M:%S,%f"), (datetime.date(2020, 12, 31), "%Y-%j"), (datetime.date(1000, 1, 1), "%Y%m%d"),
+            (datetime.datetime(2020, 2, 29, 12, 0, 0, tzinfo=datetime.timezone(datetime.timedelta(hours=5, minutes=30))), "%Y-%m-%dT%H:%M:%S%z"),
+            (datetime.time(1, 2, 3, tzinfo=datetime.timezone.utc), "%H:%M:%S%z")]
     for v, f in fmts:
         ctx.case(("fmt", repr(v), f))
         try:
